@@ -13,6 +13,7 @@ import sys
 VERIF = os.path.dirname(os.path.dirname(os.path.abspath(__file__)))
 REPO = os.environ.get("VERIF_REPO", "/repo")
 OUT = os.path.join(VERIF, "lean", "BigtoolsModel", "Generated", "Consts.lean")
+FUNCS = os.path.join(VERIF, "lean", "BigtoolsModel", "Generated", "Funcs.lean")
 
 
 def rust_string_at(src, i):
@@ -189,8 +190,41 @@ def previous():
     return out
 
 
+def funcs():
+    """pure decision functions translated from their Rust source (tools/rs2lean.py) -> Generated/Funcs.lean.
+    Returns (failed?, changed?). A function outside the translator's subset, or a translation Lean does not accept,
+    is an extraction failure: the previous snapshot stays."""
+    import subprocess
+    import tempfile
+    sys.path.insert(0, os.path.dirname(os.path.abspath(__file__)))
+    import rs2lean
+    try:
+        body = rs2lean.translate(read("bigtools/src/bbi/bbiread.rs"), ["overlaps"])
+    except Exception:                               # noqa  (Unsupported, or anything the parser trips over)
+        return True, False
+    text = ("/-! GENERATED by tools/extract_consts.py (tools/rs2lean.py) from /repo's working tree — do not edit.\n"
+            "    Pure decision functions of the code, translated from their Rust source. -/\nnamespace Gen\n\n"
+            + body + "\n\nend Gen\n")
+    old = open(FUNCS, encoding="utf-8").read() if os.path.exists(FUNCS) else None
+    if old == text:
+        return False, False
+    with tempfile.TemporaryDirectory() as td:
+        tmp = os.path.join(td, "Funcs.lean")
+        open(tmp, "w", encoding="utf-8").write(text)
+        try:
+            ok = subprocess.run(["lean", tmp], capture_output=True, timeout=120).returncode == 0
+        except Exception:                           # noqa
+            ok = False
+    if not ok:
+        return True, False
+    with open(FUNCS, "w", encoding="utf-8") as f:
+        f.write(text)
+    return False, old is not None
+
+
 def main():
     vals, failed = extract()
+    ffailed, fchanged = funcs()
     if failed:
         prev = previous()
         fill = {"AUTOSQL_LFIELD": (prev.get("AUTOSQL_LFIELD_A"), prev.get("AUTOSQL_LFIELD_B")),
@@ -204,7 +238,7 @@ def main():
     if old != text:
         with open(OUT, "w", encoding="utf-8") as f:
             f.write(text)
-    return failed, old is not None and old != text
+    return failed + (["FUNCS(overlaps)"] if ffailed else []), (old is not None and old != text) or fchanged
 
 
 if __name__ == "__main__":
